@@ -51,9 +51,19 @@ def run(R):
     # counter: init const, +1 inside the timeout handler, exit test raising
     augs = [n for n in rt.cfg.nodes if n.kind == 'stmt' and isinstance(n.ast, ast.AugAssign) and isinstance(n.ast.target, ast.Name)]
     inst = f'{rt.qual} :: attempt counter'
-    if len(augs) != 1:
+    if not augs:
+        R.fail('C19.LOP.1', inst, rt.qual, 'def retry', 'time-outs are not counted: a lost segment is re-requested forever instead of failing after retry_times attempts',
+               site(rt, rt.f.node))
+        augs = None
+    elif len(augs) != 1:
         raise AnalysisError(f'retry: expected one counter increment, found {len(augs)}')
-    aug = augs[0]
+    aug = augs[0] if augs else None
+    if aug is not None:
+        _retry_counter(R, P, rt, aug, exprs, inst)
+    _rest(R, P, g, rt, exprs)
+
+
+def _retry_counter(R, P, rt, aug, exprs, inst):
     cvar = aug.ast.target.id
     step = aug.ast.value.value if isinstance(aug.ast.op, ast.Add) and isinstance(aug.ast.value, ast.Constant) else None
     inits = [v for (d, v) in rt.cfg.defs_reaching(aug, cvar) if d is not aug]
@@ -72,6 +82,9 @@ def run(R):
         probs.append((f'counter init={init} step={step}', aug.ast))
     if not aug.in_handlers:
         probs.append(('attempts are counted outside the timeout handler', aug.ast))
+    if not tests:
+        R.fail('C19.LOP.1', inst, rt.qual, aug.ast, 'the attempt counter is never compared with retry_times: the fetch never gives up', site(rt, aug.ast))
+        return
     if len(tests) != 1:
         raise AnalysisError(f'retry: expected one test on {cvar}, found {len(tests)}')
     t = tests[0]
@@ -85,8 +98,8 @@ def run(R):
     if init is not None and step == 1:
         off = {ast.GtE: 0, ast.Eq: 0, ast.Gt: 1}.get(op)
         if off is None:
-            raise AnalysisError(f'retry: unrecognised limit test {norm(t.ast)}')
-        attempts_minus_R = -init + off + (0 if after_inc else 1) - lhs_off(t.ast.left)
+            probs.append((f'the limit test `{norm(t.ast)}` does not fire when the number of attempts reaches retry_times', t.ast))
+        attempts_minus_R = (-init + off + (0 if after_inc else 1) - lhs_off(t.ast.left)) if off is not None else 0
         if attempts_minus_R != 0:
             probs.append((f'an Interest is attempted retry_times{attempts_minus_R:+d} times (test `{norm(t.ast)}`, counter from {init})', t.ast))
     # the raising edge re-raises the timeout; the other edge loops back to a new express
@@ -105,6 +118,10 @@ def run(R):
             R.fail('C19.LOP.1', inst, rt.qual, construct, what, site(rt, construct))
     else:
         R.ok('C19.LOP.1', inst, site(rt, t.ast), f'init {init}, +1 per timeout, `{norm(t.ast)}` raises')
+
+
+def _rest(R, P, g, rt, exprs):
+    SFq = SF
     # express parameters: same name variable, caller's validator / lifetime
     (en, ec) = exprs[0]
     kw = {k.arg: ast.unparse(k.value) for k in ec.keywords}
@@ -123,6 +140,9 @@ def run(R):
     F = {n.id for n in fetches}
     Y = {n.id for n in yields}
     probs = []
+    for t in g.cfg.nodes:
+        if t.kind == 'test' and 'to_number(' in ast.unparse(t.ast) and 'to_number(name[-1])' not in ast.unparse(t.ast):
+            R.fail('C19.LOP.2', f'{SF} :: segment number of the last component', SF, t.ast, f'the segment number is read from `{norm(t.ast)}`, not from the last name component', site(g, t.ast))
     zts = [t for t in g.cfg.nodes if t.kind == 'test' and isinstance(t.ast, ast.Compare) and 'to_number' in ast.unparse(t.ast)
            and isinstance(t.ast.comparators[0], ast.Constant) and t.ast.comparators[0].value == 0 and isinstance(t.ast.ops[0], ast.Eq)]
     for f in fetches:
@@ -250,6 +270,10 @@ def run(R):
         R.ok('C19.LOP.2', inst, site(g, fb[0].ast), f'{len(fb)} tests')
     # unsegmented path: type test, yield once, return
     ut = [t for t in g.cfg.nodes if t.kind == 'test' and 'TYPE_SEGMENT' in ast.unparse(t.ast)]
+    for t in ut:
+        if 'get_type(name[-1])' not in ast.unparse(t.ast):
+            R.fail('C19.LOP.2', f'{SF} :: segment test on the last component', SF, t.ast, f'whether the answer is a segment is decided on `{norm(t.ast)}`, not on the last name component',
+                   site(g, t.ast))
     inst = f'{SF} :: unsegmented object'
     if len(ut) != 1 or not isinstance(ut[0].ast, ast.Compare):
         R.fail('C19.LOP.2', inst, SF, 'def segment_fetcher', 'no test whether the first answer is a segment', site(g, g.f.node))
